@@ -78,6 +78,21 @@ MIDNIGHTS = [('America/Havana', (2021, 11, 7, 0, 30, 0)), ('America/Havana', (20
              ('Asia/Beirut', (2021, 3, 28, 12, 0, 0))]
 
 
+SWITCH_ZONES = ['Australia/Lord_Howe', 'America/St_Johns', 'Australia/Adelaide', 'Europe/Berlin', 'Asia/Kathmandu', 'America/Havana']
+
+
+def transitions(zone, year=2021):
+    z = ZoneInfo(zone)
+    t0 = int(dt.datetime(year, 1, 1, tzinfo=dt.timezone.utc).timestamp())
+    out, prev = [], dt.datetime.fromtimestamp(t0, z).utcoffset()
+    for t in range(t0, t0 + 366 * 86400, 900):
+        off = dt.datetime.fromtimestamp(t, z).utcoffset()
+        if off != prev:
+            out.append(t)
+            prev = off
+    return out
+
+
 def month_ends():
     import calendar
     out = []
@@ -108,6 +123,10 @@ def groups(tier, seed):
             yield {'kind': 'rel', 'zone': zone, 'now': list(now), 'only': None}
     yield {'kind': 'fmt'}
     yield {'kind': 'epoch'}
+    # entries a few minutes before and after each change of the zone's offset (also zones that change on a half hour), met in both orders
+    for zone in SWITCH_ZONES:
+        for rd in ('sorted', 'rev'):
+            yield {'kind': 'switch', 'zone': zone, 'rd': rd}
     # several date conditions with different literals in one WHERE, some of them skipped for some rows
     for zone in ('UTC', 'Europe/Berlin'):
         for rd in ('sorted', 'rev'):
@@ -119,6 +138,8 @@ def single(case):
         return {'kind': 'abs', 'zone': case['zone'], 'base': case['base'], 'only': case['cond']}
     if case['kind'] == 'epoch':
         return {'kind': 'epoch', 'only': case['cond']}
+    if case['kind'] == 'switch':
+        return {'kind': 'switch', 'zone': case['zone'], 'rd': case['rd']}
     if case['kind'] == 'compound':
         return {'kind': 'compound', 'zone': case['zone'], 'rd': case['rd'], 'only': case['cond']}
     if case['kind'] == 'rel':
@@ -300,6 +321,41 @@ def eval_group(env, group, tier):
                 for op in OPS:
                     conds.append(("%s '%s'" % (op, lit), op, dt.datetime(1970, 1, 1) + dt.timedelta(seconds=a), dt.datetime(1970, 1, 1) + dt.timedelta(seconds=b), 'epoch'))
             run_conds(env, root, 'UTC', floor_times, conds, group, outs, kind='epoch')
+        finally:
+            env.rmtree(root)
+    elif kind == 'switch':
+        zone, rd = group['zone'], group['rd']
+        stamps = {}
+        for k, t in enumerate(transitions(zone) or [1616893200]):
+            for j, d in enumerate((-2700, -900, -1, 0, 900, 2700, 1799, -1801)):
+                stamps['w%d%d' % (k, j)] = t + d
+        stamps['far'] = 1600000000
+        root = env.newdir('c13s')
+        core.materialise(root, {n: F(1, mtime=t, atime=t) for n, t in stamps.items()})
+        try:
+            texts = {n: local_naive(t, zone).strftime('%Y-%m-%d %H:%M:%S') for n, t in stamps.items()}
+            o = env.run(['name, modified, accessed from . into list'], cwd=root, env={'TZ': zone, 'FSX_READDIR': rd}, preload=True)
+            rows = o.rows(3) or []
+            exp = sorted((n, x, x) for n, x in texts.items())
+            r = {'case': {'kind': 'switch', 'zone': zone, 'rd': rd}, 'nt': True, 'layer': 'offset-change', 'trans': len(stamps)}
+            if o.rc != 0 or sorted(map(tuple, rows)) != exp:
+                bad = [(g, e) for g, e in zip(sorted(map(tuple, rows)), exp) if tuple(g) != e][:4]
+                r.update(status='viol', cls='modified-text-at-offset-change', detail={'zone': zone, 'diff': bad, 'err': o.brief()['err'], 'rd': rd}, sig=('switch',))
+            else:
+                # every entry is found by its own printed time, whatever was looked at before it
+                bad = None
+                for n, x in sorted(texts.items()):
+                    q = "name from . where modified = '%s' or accessed < '1999-01-01' into list" % x
+                    o2 = env.run([q], cwd=root, env={'TZ': zone, 'FSX_READDIR': rd}, preload=True)
+                    want = sorted(m for m, y in texts.items() if y == x)
+                    if o2.rc != 0 or sorted(o2.rows()) != want:
+                        bad = {'zone': zone, 'query': q, 'got': sorted(o2.rows()), 'expected': want, 'rd': rd}
+                        break
+                if bad:
+                    r.update(status='viol', cls='comparison-at-offset-change', detail=bad, sig=('switch-cmp',))
+                else:
+                    r.update(status='ok', sig=(zone, rd))
+            outs.append(r)
         finally:
             env.rmtree(root)
     else:
